@@ -464,6 +464,17 @@ def run(ctx):
     ctx.case(("batch-corpus", "born-on-exit-step"))
     if not ok:
         ctx.oracle_fail("es-child-born-finished-not-logged" if "no snapshot of its own" in text else "batch-weights", "batch", a, obs, req, text)
+    # directed: ONE user-supplied SpawnStack object (explicit tree) serves several initial conditions of a batch, on runs that are
+    # sure to cross thresholds: every initial condition's tree sums to its own initial weight
+    for i in range(ctx.budget(6, 30)):
+        a = dict(model=["simple", "dual", "super"][i % 3], x0=-4.0, k=float(rng.uniform(8, 22)), seed=int(rng.integers(1, 10 ** 6)), dt=20.0,
+                 box=3.0, maxsteps=2500, stack=[3], quadrature="gl", mcsamples=1, tree=random_tree(rng, 2, dyadic=True),
+                 samples=int(rng.integers(2, 4)))
+        ok, obs, req, text = oracle_batch(a)
+        ctx.case(("batch-shared-stack-object", a["model"], a["samples"]))
+        ctx.count("batches_with_one_stack_object_for_several_initial_conditions")
+        if not ok:
+            ctx.oracle_fail("batch-weights", "batch", a, obs, req, text)
     # directed: the tree is cut - by max_steps and by max_time - on the very steps on which its children are born in a free run
     for i in range(ctx.budget(2, 12)):
         a0 = dict(model=["simple", "dual"][i % 2], x0=-4.0, k=float(rng.uniform(8, 20)), seed=int(rng.integers(1, 10 ** 6)), dt=20.0, box=3.0,
